@@ -9,3 +9,15 @@ func IsDistributionFilled(distribution map[uint]uint) bool {
 
 	return true
 }
+
+// Checks that each of the specified priorities has a non-zero quantity in
+// the distribution (priority missing from the distribution has a zero quantity).
+func IsDistributionFilledFor(priorities []uint, distribution map[uint]uint) bool {
+	for _, priority := range priorities {
+		if distribution[priority] == 0 {
+			return false
+		}
+	}
+
+	return true
+}
